@@ -119,7 +119,7 @@ def emit_sys(traces, out, monitors):
     out.write('Print NONTRIVIAL.\n')
 
 
-CASE_MODULES = {'route': 'Route', 'poll': 'Poll', 'kernel': 'Kernel', 'front': 'Valid', 'asserts': 'Valid', 'equiv': 'Equiv', 'render': 'Render', 'plug': 'Plug', 'commit': 'Commit', 'aio': 'Aio', 'loop': 'Loop', 'handoff': 'Plug'}
+CASE_MODULES = {'route': 'Route', 'poll': 'Poll', 'kernel': 'Kernel', 'front': 'Valid', 'asserts': 'Valid', 'equiv': 'Equiv', 'render': 'Render', 'plug': 'Plug', 'commit': 'Commit', 'aio': 'Aio', 'loop': 'Loop', 'handoff': 'Plug', 'stack': 'Stack'}
 
 
 def emit_cases(fam, traces, out):
@@ -130,8 +130,17 @@ def emit_cases(fam, traces, out):
     names = []
     for k, tr in enumerate(traces):
         cs = [em.term(c) for c in tr['cases']]
+        url_t = em.term({'s': tr['cfg']['url']}) if 'cfg' in tr else None
         em.dump(out)
-        out.write('Definition cs_%d := [%s].\n' % (k, '; '.join(cs)))
+        if 'cfg' in tr:
+            # a group that carries the kernel configuration of its run: the group is the pair (config, cases)
+            cfg = tr['cfg']
+            out.write('Definition ccfg_%d : config := (mkCfg %s %d %d %d %d (cron_fn []) %s).\n' % (
+                k, url_t, cfg['pbatch'], cfg['sbatch'], cfg['tbatch'], cfg['enq_delay'],
+                'true' if cfg.get('fifo', True) else 'false'))
+            out.write('Definition cs_%d := (ccfg_%d, [%s]).\n' % (k, k, '; '.join(cs)))
+        else:
+            out.write('Definition cs_%d := [%s].\n' % (k, '; '.join(cs)))
         names.append(k)
     out.write('Definition all_cases := [%s].\n' % '; '.join('cs_%d' % k for k in names))
     out.write('Definition MISMATCHES := Eval vm_compute in %s_mismatches all_cases.\n' % fam)
